@@ -23,8 +23,9 @@ META = dict(
                 bounds='any reals lo < hi', options='1..5', linked_group='<= 3 nodes',
                 fp_widths='quick: Float16, Float32 (30 s per query); thorough adds Float64 (300 s per query)'),
     outside=['NaN as a value or bound (stored unchanged; not among the values the property quantifies over)',
-             '"every existing node has a value and the vector reports it" on whole decoded graphs: get_graph casts with '
-             'int()/float(), which removes the symbolic value; the functions it calls are the ones checked here',
+             '"every existing node has a value and the vector reports it" on whole decoded graphs is decided on three '
+             'hand-written templates only, with discrete entries bounded to [-3, n+3] (get_graph casts with int() before '
+             'clamping) and continuous entries at five concrete probe values',
              'floating point beyond the stated magnitude bound (overflow of hi-lo to inf)'],
     stubs=['XDG_CACHE_HOME redirected'],
     assumptions=['value is not NaN', 'lo < hi (enforced by the constructor; the rejection itself is an obligation)',
@@ -54,6 +55,8 @@ def instances(tier, seed):
     out.append(dict(label='set_linked_disc n=4,2,4 src=0', kind='set_linked_disc', ns=[4, 2, 4], src=0))
     out.append(dict(label='set_linked_mixed', kind='set_linked_mixed'))
     out.append(dict(label='set_other_untouched', kind='set_other'))
+    for name in ('dv', 'dv_single', 'dv_linked'):
+        out.append(dict(label=f'decode_dv {name}', kind='decode_dv', template=name))
     widths = [(16, 30), (32, 30), (64, 30)] if tier == 'quick' else [(16, 60), (32, 120), (64, 300)]
     for bits, to in widths:
         out.append(dict(label=f'fp_single bits={bits}', kind='fp_single', bits=bits, timeout=to))
@@ -563,6 +566,101 @@ def _run_set_linked_mixed(inst, res):
         res['status'] = INCONCLUSIVE
         res['notes'].append(ex.status)
     res['sample'] = dict(harness='linked continuous+discrete', outcome=[p.kind for p in ex.paths])
+
+
+def _run_decode_dv(inst, res):
+    """GraphProcessor.get_graph on templates with design-variable nodes: the entries of the design vector that belong to
+    discrete design-variable nodes are symbolic integers in [-3, n+3] (get_graph casts them with int() before clamping,
+    so an unbounded value would be an endless case split - stated bound), continuous entries take concrete probe values
+    (below, on, inside, on, above the bounds), selection-choice entries sweep all values. Per path: every design-variable
+    node that exists in the decoded instance carries the clamped value and the corrected vector reports it; absent nodes
+    are inactive at the canonical value; create=False reports the same vector and activeness."""
+    from pools import dsg as dsg_pool
+    from adsg_core import DesignVariableNode
+    name = inst['template']
+    gp0, g0, info0 = dsg_pool.make_processor(name)
+    dvs = gp0.des_vars
+    sel_idx = [i for i, d in enumerate(dvs) if not isinstance(d.node, DesignVariableNode)]
+    disc_idx = [i for i, d in enumerate(dvs) if isinstance(d.node, DesignVariableNode) and d.is_discrete]
+    cont_idx = [i for i, d in enumerate(dvs) if isinstance(d.node, DesignVariableNode) and not d.is_discrete]
+    names = {i: f'x{i}' for i in disc_idx}
+    pre = []
+    for i in disc_idx:
+        pre += [z3.Int(names[i]) >= -3, z3.Int(names[i]) <= dvs[i].n_opts+3]
+    n_checked = 0
+    for sel_vals in itertools.product(*[range(dvs[i].n_opts) for i in sel_idx]):
+        for probe in range(5):
+            cont_vals = {}
+            for i in cont_idx:
+                lo, hi = dvs[i].bounds
+                cont_vals[i] = [lo-1.5, lo, (lo+2*hi)/3, hi, hi+100.][probe]
+
+            def run():
+                gp, g, info = dsg_pool.make_processor(name)
+                x = [0]*len(dvs)
+                for i, v_ in zip(sel_idx, sel_vals):
+                    x[i] = v_
+                for i in cont_idx:
+                    x[i] = cont_vals[i]
+                for i in disc_idx:
+                    x[i] = sym_int(names[i])
+                inst_g, x_imp, act = gp.get_graph(list(x))
+                _, x_imp2, act2 = gp.get_graph(list(x), create=False)
+                nodes = set(inst_g.graph.nodes)
+                out = []
+                for i, d in enumerate(gp.des_vars):
+                    if isinstance(d.node, DesignVariableNode):
+                        out.append((i, d.node in nodes, inst_g.des_var_value(d.node), x_imp[i], bool(act[i])))
+                return out, list(x_imp) == list(x_imp2) and list(act) == list(act2), len(inst_g.des_var_values)
+            ex = explore(run, pre=pre, max_paths=3000, time_cap_s=120, fanout_cap=40)
+            absorb(res, ex)
+            if not ex.complete:
+                res['status'] = INCONCLUSIVE
+                res['notes'].append(ex.status)
+                return
+            if not require_exhaustive(res, ex):
+                return
+            for p in ex.paths:
+                res['obligations'] += 1
+                s_ = z3.Solver()
+                s_.add(*pre)
+                s_.add(p.cond())
+                s_.check()
+                mdl = s_.model()
+                xin = {i: mdl.eval(z3.Int(names[i]), model_completion=True).as_long() for i in disc_idx}
+                xin.update(cont_vals)
+                inputs = dict(selection=list(sel_vals), dv_entries={dvs[i].name: xin[i] for i in disc_idx+cont_idx})
+                if p.kind == 'exc':
+                    _viol(res, 'decode_dv', dict(kind='decode_raises', template=name), dict(template=name), inputs, repr(p.exc), 'instance')
+                    continue
+                out, same_nc, n_vals = p.value
+                problems = []
+                if not same_nc:
+                    problems.append('create=False reports another vector/activeness than create=True')
+                for i, exists, stored, reported, active in out:
+                    d = dvs[i]
+                    if d.is_discrete:
+                        want = min(max(xin[i], 0), d.n_opts-1)
+                        canon = 0
+                    else:
+                        want = min(max(xin[i], d.bounds[0]), d.bounds[1])
+                        canon = (d.bounds[0]+d.bounds[1])/2
+                    if exists:
+                        if stored is None:
+                            problems.append(f'{d.name}: node exists but has no value on the instance')
+                        elif stored != want or reported != want or not active:
+                            problems.append(f'{d.name}: entry {xin[i]} -> stored {stored}, reported {reported}, active {active}; clamp is {want}')
+                    else:
+                        if active or reported != canon:
+                            problems.append(f'{d.name}: node absent but active={active}, reported {reported} (canonical {canon})')
+                if problems:
+                    _viol(res, 'decode_dv', dict(kind='decoded_dv_value', template=name, what=problems[0].split(':')[0]), dict(template=name), inputs,
+                          problems[:3], 'existing design-variable nodes carry the clamped value, which the corrected vector reports')
+                else:
+                    res['discharged'] += 1
+                res['validated'] += 1
+                n_checked += 1
+    res['sample'] = dict(harness=inst['label'], variables=[d.name for d in dvs], paths_checked=n_checked)
 
 
 # --- IEEE ------------------------------------------------------------------------------------------------------------
